@@ -154,6 +154,124 @@ def _sites():
     return {(s[0], s[1]) for s in fp.get("effects.sites", []) if s[3] in ("open-path", "read_text", "read_bytes", "open-cli-output")}
 
 
+# --------------------------------------------------------------------------- disk formats behind real files opened for update
+
+RW_MODS = [("c03", 12), ("c01", 3), ("c04", 3), ("c05", 3), ("c06", 3)]      # (format check, cases per quick run); VMDK: see the vmdk family
+RW_MAX = 48 << 20
+
+
+class RecFile(io.BufferedRandom):
+    """a genuine file object on a real file opened "r+b" (descriptor, fileno(), OS-level write access), recording the calls
+    that would modify it; `getvalue()` = the bytes of the file after the run (read back from disk before it is removed)"""
+
+    def __init__(self, path):
+        super().__init__(io.FileIO(path, "r+"))
+        self.muts, self.reads, self.final = [], 0, None
+
+    def read(self, *a):
+        self.reads += 1
+        return super().read(*a)
+
+    def write(self, b):
+        self.muts.append(("write", self.tell(), len(b)))
+        return super().write(b)
+
+    def truncate(self, *a):
+        self.muts.append(("truncate", self.tell(), 0))
+        return super().truncate(*a)
+
+    def getvalue(self):
+        return self.final
+
+
+class _OnDisk:
+    """stands in for a sparse.Image in `Built.files`: `open()` hands out an r+b handle on the materialised file"""
+
+    def __init__(self, im, path, handles):
+        self._im, self._path, self._handles = im, path, handles
+        im.write_to(path)
+        self._orig = Path(path).read_bytes()
+
+    def open(self, name=None, log=None):
+        fh = RecFile(self._path)
+        self._handles.append((fh, self._orig))
+        return fh
+
+    def __getattr__(self, k):
+        return getattr(self._im, k)
+
+
+def _rwfile_cases(seed, rng, mult):
+    """Sub-cases of the disk-format checks whose images fit a temp file; every other VHDX is given an *active log* ([MS-VHDX] 2.3:
+    non-zero LogGuid in the current header, a sequence of CRC-32C-protected entries with data and zero descriptors): a reader that
+    brings such an image up to date must do so without touching the file. The expected trace is read-only whatever the reader does
+    with the log (dissect.hypervisor ignores it)."""
+    import copy
+    import gen_vhdx
+    out = []
+    for mod, n in RW_MODS:
+        m = importlib.import_module(mod)
+        sub = [c for c in m.generate(seed, "quick") if c.get("align", 8192) == 8192]
+        rng.shuffle(sub)
+        k = 0
+        for sc in sub:
+            if k >= n * mult:
+                break
+            if mod == "c03" and k % 2 == 0:
+                sc = copy.deepcopy(sc)
+                sc["recipe"]["layers"][-1]["log"] = gen_vhdx.gen_log(rng, sc["recipe"]["layers"][-1])
+            try:
+                if any(im.size > RW_MAX for im in m.build(sc).files.values()):
+                    continue
+            except Exception:  # noqa
+                continue
+            out.append({"id": f"rwfile-{mod}-{sc['id']}", "fam": "rwfile", "mod": mod, "sub": sc, "queries": [],
+                        "recipe": {"mod": mod, "sub": sc.get("recipe"), "log": bool(mod == "c03" and k % 2 == 0)}})
+            k += 1
+    return out
+
+
+def _rwfile_run(case, handles, err):
+    """run the format workload with every image materialised in a temp directory and opened "r+b"; -> audit events.
+    `handles` receives (handle, original bytes): the caller compares content and recorded calls"""
+    import shutil
+    import tempfile
+    m = importlib.import_module(case["mod"])
+    ib = m.build(case["sub"])
+    d = tempfile.mkdtemp(prefix="hvc09rw.")
+    holders = [(ib, ib.files)] + ([(t, t.files) for t in [m.truth_of(case["sub"])]] if hasattr(m, "truth_of") else [])   # c01 opens what its (cached) writer holds
+    try:
+        ondisk = {}
+        for holder, files in holders:
+            for fid, im in files.items():
+                if id(im) not in ondisk:
+                    ondisk[id(im)] = _OnDisk(im, os.path.join(d, f"{len(ondisk)}-{fid}.img"), handles)
+            holder.files = {fid: ondisk[id(im)] for fid, im in files.items()}
+        audit_start()
+        try:
+            try:
+                m.impl_run(case["sub"], ib)
+            except Exception as e:  # noqa
+                err["0"] = f"{type(e).__name__}: {e}"[:200]
+        finally:
+            events = audit_stop()
+        for fh, _ in handles:
+            try:
+                fh.flush()
+            except Exception:  # noqa
+                pass
+            fh.final = Path(fh.name).read_bytes()
+            try:
+                fh.close()
+            except Exception:  # noqa
+                pass
+        return events
+    finally:
+        for holder, files in holders:
+            holder.files = files
+        shutil.rmtree(d, ignore_errors=True)
+
+
 # --------------------------------------------------------------------------- cases
 
 def generate(seed, tier):
@@ -192,6 +310,7 @@ def generate(seed, tier):
     for i in range(24 * mult):
         fmt = ["vmx", "ovf", "vbox", "pvs"][i % 4]
         cases.append({"id": f"cfg-{fmt}-{i}", "fam": "config", "recipe": {"vm": gen_configs.gen_vm(rng), "fmt": fmt, "rseed": rng.getrandbits(32)}, "queries": []})
+    cases += _rwfile_cases(seed, random.Random(f"C09/rwfile/{seed}/{tier}"), mult)
     return cases
 
 
@@ -241,6 +360,8 @@ def impl_run(case, built):
                     err["0"] = f"{type(e).__name__}: {e}"[:200]
             finally:
                 events = audit_stop()
+        elif fam == "rwfile":
+            events = _rwfile_run(case, handles, err)
         elif fam == "envelope":
             import gen_envelope
             b = gen_envelope.build(case["recipe"])
